@@ -58,6 +58,7 @@ type RecWriter struct {
 	Writes   int
 	FailAt   int         // index of the Write call that fails (-1 = never)
 	Perm     bool        // permanent failure from FailAt on
+	FailMore []int       // further Write indices that fail once
 	Partial  bool        // a failing Write accepts the first half of its bytes before failing (n > 0 with an error)
 	OnWrite  func(i int) // called at the start of every Write (the writer looks at the caller's buffers while the Muxer is inside a call)
 	FailErr  error
@@ -73,7 +74,11 @@ func (w *RecWriter) Write(p []byte) (int, error) {
 	if w.OnWrite != nil {
 		w.OnWrite(i)
 	}
-	if w.FailAt >= 0 && (i == w.FailAt || (w.Perm && i > w.FailAt)) {
+	more := false
+	for _, k := range w.FailMore {
+		more = more || k == i
+	}
+	if more || w.FailAt >= 0 && (i == w.FailAt || (w.Perm && i > w.FailAt)) {
 		w.FailedIn++
 		if w.Partial {
 			k := len(p) / 2
